@@ -8,8 +8,18 @@ package main
 
 import (
 	"fmt"
+	"go/constant"
 	"strings"
+
+	"golang.org/x/tools/go/ssa"
 )
+
+func constStringVal2(c *ssa.Const) (string, bool) {
+	if c.Value == nil || c.Value.Kind() != constant.String {
+		return "", false
+	}
+	return constant.StringVal(c.Value), true
+}
 
 func structural(name, where string, ok bool, detail string) *lemmaQuery {
 	st := "unsat"
@@ -85,7 +95,72 @@ func searchShape(prog *Program, pkgPath, constName string, wantState bool) []*le
 	return out
 }
 
+// derivedIdLemmas (C05): the ids the server derives for registrations must be injective in the client ids
+// they are built from, otherwise two different registrations share one row. The format literal is read
+// from the current source of the deriving function; the query is pure string theory.
+func derivedIdLemmas(prog *Program) []*lemmaQuery {
+	var out []*lemmaQuery
+	for _, fname := range []string{"callbackId", "subscriptionId"} {
+		key := "internal/app/coroutines:" + fname
+		fn := prog.lookupFunc(key)
+		if fn == nil {
+			continue
+		}
+		format := ""
+		nargs := 0
+		for _, b := range fn.Blocks {
+			for _, in := range b.Instrs {
+				call, ok := in.(*ssa.Call)
+				if !ok || call.Call.StaticCallee() == nil || calleeName(call.Call.StaticCallee()) != "fmt.Sprintf" {
+					continue
+				}
+				if c, ok := call.Call.Args[0].(*ssa.Const); ok {
+					if s, ok := constStringVal2(c); ok {
+						format = s
+						nargs = strings.Count(s, "%s")
+					}
+				}
+			}
+		}
+		where := key
+		if format == "" || nargs != len(fn.Params) || nargs == 0 {
+			out = append(out, structural("the id derived by "+fname+" is fmt.Sprintf of a constant format over all of its arguments", where, false, "format not recognised"))
+			continue
+		}
+		parts := strings.Split(format, "%s")
+		mk := func(vars []string) string {
+			var b strings.Builder
+			b.WriteString("(str.++")
+			for i, p := range parts {
+				if p != "" {
+					fmt.Fprintf(&b, " %q", p)
+				}
+				if i < len(vars) {
+					b.WriteString(" " + vars[i])
+				}
+			}
+			b.WriteString(")")
+			return b.String()
+		}
+		var xs, ys, eqs []string
+		decl := ""
+		for i := 0; i < nargs; i++ {
+			xs = append(xs, fmt.Sprintf("x%d", i))
+			ys = append(ys, fmt.Sprintf("y%d", i))
+			decl += fmt.Sprintf("(declare-const x%d String)\n(declare-const y%d String)\n", i, i)
+			eqs = append(eqs, fmt.Sprintf("(= x%d y%d)", i, i))
+		}
+		goal := fmt.Sprintf("(=> (= %s %s) (and %s))", mk(xs), mk(ys), strings.Join(eqs, " "))
+		out = append(out, &lemmaQuery{name: "the id derived by " + fname + " (" + format + ") is injective in its arguments", where: where,
+			q: &Query{Name: "derivedid." + fname, Prelude: decl, Goal: Term{goal, SBool}, Comment: "derived id injectivity: " + format}})
+	}
+	return out
+}
+
 func extraObligations(prog *Program, prop, tier string) []*lemmaQuery {
+	if prop == "C05" {
+		return derivedIdLemmas(prog)
+	}
 	if prop != "C14" {
 		return nil
 	}
